@@ -36,7 +36,30 @@ func shortList(l []int64) string {
 	return fmt.Sprint(l)
 }
 
-func check(t *testing.T, c Case) (v harness.Verdict) {
+// check runs one case and reports each failure mechanism once (with the number of occurrences).
+func check(t *testing.T, c Case) harness.Verdict {
+	v := judge(t, c)
+	var out []harness.Violation
+	count := map[string]int{}
+	for _, x := range v.Violations {
+		count[x.Sig]++
+	}
+	seen := map[string]bool{}
+	for _, x := range v.Violations {
+		if seen[x.Sig] {
+			continue
+		}
+		seen[x.Sig] = true
+		if n := count[x.Sig]; n > 1 {
+			x.Msg += fmt.Sprintf(" (and %d more of this kind)", n-1)
+		}
+		out = append(out, x)
+	}
+	v.Violations = out
+	return v
+}
+
+func judge(t *testing.T, c Case) (v harness.Verdict) {
 	c.normalise()
 	tr := buildSource(c.final(), c.Seed, c.DupMod, c.SameTS)
 	if c.BigN > 0 {
@@ -56,7 +79,7 @@ func check(t *testing.T, c Case) (v harness.Verdict) {
 	if o.stormed && o.stormKind == "restart-storm" {
 		v.Failf("restart-storm", "more than %d rounds of reading the destination root and fetching a tail without any progress (no fault consumed, no new index written, no growth, no scheduled event); the run was aborted", idleTailLimit)
 	} else if o.stormed {
-		v.Failf("request-storm", "more than %d requests reached the source log without any progress (no fault consumed, no new index written, no growth, no scheduled event); the run was aborted", idleReqLimit)
+		v.Failf("request-storm", "more than %d requests (or %d MiB of entries) were served by the source log without any progress (no fault consumed, no new index written, no growth, no scheduled event); the run was aborted", idleReqLimit, idleByteLimit>>20)
 	}
 	if o.timedOut {
 		v.Failf("non-termination", "the run did not end within 96 h of virtual time (passes completed: %d of %d)", len(o.passes), c.Passes)
@@ -243,6 +266,8 @@ func check(t *testing.T, c Case) (v harness.Verdict) {
 		}
 	}
 
+	streamClean := len(v.Violations) == 0 // otherwise a failing pass is a consequence, not a finding of its own
+
 	// ---- per pass: completeness after success; failures must have a cause
 	dst := o.dst
 	held := func(idx int64) (*trillian.LogLeaf, bool) {
@@ -327,7 +352,7 @@ func check(t *testing.T, c Case) (v harness.Verdict) {
 				}
 			}
 			switch {
-			case explained:
+			case explained || !streamClean:
 			case bad >= 0:
 				v.Failf("unparsable-entry-not-copied", "pass %d failed with %q; the first batch it left out (from index %d) contains index %d, an entry whose certificate does not parse (no fault that may end a pass was injected)", p, pr.Err, stuck, bad)
 			case !o.stormed:
